@@ -308,6 +308,8 @@ pub enum Spec {
 pub enum Vu {
     None,
     Rel(i8),
+    /// ledger 0
+    Zero,
 }
 #[derive(Clone, Debug, Serialize, Deserialize)]
 pub enum ROp {
@@ -355,7 +357,8 @@ fn ksel(member_w: u32, non_w: u32) -> BoxedStrategy<KSel> {
     .boxed()
 }
 fn vu_strategy() -> BoxedStrategy<Vu> {
-    prop_oneof![8 => Just(Vu::None), 4 => (-1i8..=4).prop_map(Vu::Rel), 1 => any::<i8>().prop_map(Vu::Rel)].boxed()
+    // Rel(i8::MIN) resolves to ledger 0 (the histories start at ledger 100): a past ledger that must not read as "no expiration"
+    prop_oneof![8 => Just(Vu::None), 4 => (-1i8..=4).prop_map(Vu::Rel), 1 => any::<i8>().prop_map(Vu::Rel), 1 => Just(Vu::Zero)].boxed()
 }
 fn add_rule_strategy(big_w: u32) -> BoxedStrategy<ROp> {
     let spec = prop_oneof![
@@ -743,6 +746,7 @@ pub fn run_rules(case: &RCase, ctx: &mut Ctx) -> R {
                 let vu_abs = match vu {
                     Vu::None => None,
                     Vu::Rel(d) => Some((seq as i64 + *d as i64).max(0) as u32),
+                    Vu::Zero => Some(0),
                 };
                 let name_s = format!("rule-{name}");
                 let fp: Fp = (ty, ss.clone(), ps.clone());
@@ -905,6 +909,7 @@ pub fn run_rules(case: &RCase, ctx: &mut Ctx) -> R {
                 let vu_abs = match vu {
                     Vu::None => None,
                     Vu::Rel(d) => Some((seq as i64 + *d as i64).max(0) as u32),
+                    Vu::Zero => Some(0),
                 };
                 let exp = if !m.rules.contains_key(&id) {
                     Err("absent-rule")
